@@ -49,6 +49,10 @@ def growth_sites(body):
         elif 'vec::from_elem' in cn:
             kind = 'alloc'
             size_op = t.args[1]
+        elif m == 'new' and ('brotli::Decompressor' in t.cdef or 'brotli::CompressorWriter' in t.cdef or 'brotli::DecompressorWriter' in t.cdef) and len(t.args) >= 2:
+            # the brotli adaptors allocate their transfer buffer eagerly, with the size they are given
+            kind = 'alloc'
+            size_op = t.args[1]
         elif m in ('read_to_end', 'read_to_string') and t.ctrait == 'std::io::Read':
             kind = 'read_all'
         elif m == 'collect' and t.ctrait == 'std::iter::Iterator':
